@@ -694,8 +694,15 @@ def o_c06(spec, spec2, flipped):
         return sorted(out)
     n1, n2 = norm(v1), norm(v2)
     if n1 != n2:
+        diff = [x for x in n1 if x not in n2] + [x for x in n2 if x not in n1]
         d = [x for x in n1 if x not in n2][:3] + [x for x in n2 if x not in n1][:3]
-        return 'switching %s from returning to raising changes the run: %s' % (flipped, d)
+        tag = ''
+        import sys as _sys
+        if _sys.version_info < (3, 12) and len({x[0] for x in diff}) == 1:
+            # known finding (python <= 3.11 only): clearing the exceptions of a batch costs co_run one extra
+            # event-loop iteration, which can decide a race inside one instant
+            tag = '[same-instant-race-py311] '
+        return '%sswitching %s from returning to raising changes the run: %s' % (tag, flipped, d)
     if (r1.verdict, type(r1.exc)) != (r2.verdict, type(r2.exc)):
         return 'verdict changes: %r/%r vs %r/%r' % (r1.verdict, r1.exc, r2.verdict, r2.exc)
     for f in flipped:
